@@ -654,7 +654,8 @@ func cmdCheck(args []string) int {
 		Assumptions: def.Assumptions, WallS: time.Since(start).Seconds(), Violations: nViol}
 	os.MkdirAll(filepath.Join(verifRoot(), "evidence"), 0o755)
 	data, _ := json.MarshalIndent(ev, "", " ")
-	if only == "" {
+	if only == "" && repo == "/repo" {
+		// evidence describes runs against /repo itself; development runs (a subset of the runs, or another tree) leave it alone
 		os.WriteFile(filepath.Join(verifRoot(), "evidence", id+".json"), data, 0o644)
 	}
 	fmt.Printf("[%s/%s] exit=%d obligations_discharged=%d paths=%d queries=%d wall=%.1fs\n", id, tier, exit, asserts, paths, queries, time.Since(start).Seconds())
